@@ -83,6 +83,19 @@ func drawC09(t *rapid.T) caseC09 {
 			max = 600
 		}
 		l.Data = small(l.Data, max)
+		if l.ByteSink && rapid.Bool().Draw(t, "repcycle") {
+			// copies cycling through four distances: the rep1..rep3 branches of
+			// the encoder, whose bits reach a byte-wise sink one call at a time
+			r := gen.Recipe{{Kind: "random", Len: rapid.IntRange(170, 260).Draw(t, "rcpre"), Seed: rapid.Uint64().Draw(t, "rcseed")}}
+			d := [4]int{rapid.IntRange(9, 30).Draw(t, "rcd0"), rapid.IntRange(40, 70).Draw(t, "rcd1"), rapid.IntRange(80, 120).Draw(t, "rcd2"), rapid.IntRange(130, 165).Draw(t, "rcd3")}
+			for i, n := 0, rapid.IntRange(8, 40).Draw(t, "rcn"); i < n; i++ {
+				r = append(r, gen.Seg{Kind: "copyback", Dist: d[rapid.IntRange(0, 3).Draw(t, "rcwhich")], Len: rapid.IntRange(3, 9).Draw(t, "rclen")})
+				if rapid.IntRange(0, 3).Draw(t, "rclit") == 0 {
+					r = append(r, gen.Seg{Kind: "random", Len: 1, Seed: uint64(i)})
+				}
+			}
+			l.Data = r
+		}
 		if l.Cfg.SizeInHeader {
 			l.Cfg.Size = int64(l.Data.Len())
 		}
